@@ -130,6 +130,8 @@ def gen_random(rng):
     frames = [base]
     for _ in range(T - 1):
         frames.append([[fdec(F(x) + F(dec(rng, -0.4, 0.4, 3))), fdec(F(y) + F(dec(rng, -0.4, 0.4, 3)))] for x, y in frames[-1]])
+    if rng.random() < 0.3:
+        frames = [common.unfold_positions(rng, fr, [[Lx, "0"], [xy, Ly]], ppp) for fr in frames]      # unfolded (xu) coordinates
     c["pos"] = frames
     mode = rng.choice(["subset", "subset", "cutoff"])
     c["nmode"] = mode
